@@ -28,11 +28,22 @@
                             change an outcome (C04, interpreter half).
    NOT proved: the composition into `run on the arena = run on the denoted trees` (DESIGN.md
    appendix B.1), the representation-dependent fast paths of more_ops.rs / run_program.rs (covered
-   by C05's separately built binaries), and the BLS validated-point cache (modelled as absent:
-   Model/Prims.v explains why it cannot change an outcome; covered by the correspondence, which
-   pre-loads the cache). *)
+   by C05's separately built binaries). The BLS validated-point cache is absent from the
+   interpreter model; that this is sound is
+     C03_bls_cache          over every history of cache operations (strict negates, group-operation
+                            results, clears) from any sound cache - a fresh allocator's, or whatever
+                            earlier successful or failed runs left behind - each strict negate
+                            answers exactly what it would answer without a cache (Model/BlsCache.v
+                            transcribes validate_g1/g2, new_g1/g2, add_validated, clear; the
+                            translator pins their shape: look-up, decode, insert only after a
+                            successful decode). Premises, facts about the curve library: a group
+                            operation returns a valid encoding; the sign flip of a valid
+                            non-infinity encoding is valid.
+     C03_bls_cache_fragile  an allocator that inserts before validating is observable (witness);
+   the correspondence also pre-loads the cache and re-runs programs in the same allocator. *)
 From Clvm Require Import Model.OpUtils Model.Alloc Model.AllocHist Model.Dialect
-  Proofs.AllocBasics Proofs.AllocHeap Proofs.AllocOps Proofs.AllocReads Proofs.AllocInv Proofs.ReprIndep Proofs.DialectGC.
+  Proofs.AllocBasics Proofs.AllocHeap Proofs.AllocOps Proofs.AllocReads Proofs.AllocInv Proofs.ReprIndep Proofs.DialectGC
+  Model.BlsCache Proofs.BlsCacheProofs.
 Open Scope N_scope.
 
 Theorem C03_read_small_number : forall a n t,
@@ -70,6 +81,37 @@ Theorem C03_gc : forall P f fuel p e M r,
 Proof. exact chia_gc_to_nogc. Qed.
 
 (* non-vacuity: the same atom 0x05 as an inline small integer and as heap bytes reads alike *)
+Theorem C03_bls_cache : forall (valid is_inf : bytes -> bool) (flip : bytes -> bytes),
+  (forall b, valid b = true -> is_inf b = false -> valid (flip b) = true) ->
+  forall h c1 c2, cache_sound valid c1 -> cache_sound valid c2 -> Forall (op_ok valid) h ->
+    fst (c_run valid is_inf flip c1 h) = map (nocache_outcome valid) h /\
+    fst (c_run valid is_inf flip c2 h) = fst (c_run valid is_inf flip c1 h) /\
+    cache_sound valid (snd (c_run valid is_inf flip c1 h)).
+Proof.
+  intros valid is_inf flip Hf h c1 c2 H1 H2 Hh.
+  destruct (cache_unobservable valid is_inf flip Hf h c1 H1 Hh) as [E S].
+  split; [exact E|]. split; [|exact S].
+  exact (cache_history_independent valid is_inf flip Hf h c2 c1 H2 H1 Hh).
+Qed.
+
+Theorem C03_bls_cache_fragile : exists valid b c1,
+  c_validate_insert_first valid [] b = (false, c1) /\ fst (c_validate_insert_first valid c1 b) = true.
+Proof. exact insert_first_is_observable. Qed.
+
+(* the premises are satisfiable and the history is not trivial: an invalid point is rejected twice,
+   a valid one is cached, its flip is added, a clear forgets both *)
+Example C03_bls_cache_witness :
+  let valid := fun b : bytes => match b with x :: _ => x <? 100 | [] => false end in
+  let is_inf := fun b : bytes => match b with 0 :: _ => true | _ => false end in
+  let flip := fun b : bytes => match b with x :: r => (if x <? 50 then x + 50 else x - 50) :: r | [] => [] end in
+  let h := [CNegateStrict [200]; CNegateStrict [200]; CNegateStrict [7]; CNegateStrict [57]; CNewPoint [9]; CClear; CNegateStrict [7]] in
+  Forall (op_ok valid) h /\ cache_sound valid [[3]] /\
+  c_run valid is_inf flip [] h = ([Some false; Some false; Some true; Some true; None; None; Some true], [[57]; [7]]) /\
+  fst (c_run valid is_inf flip [[3]] h) = fst (c_run valid is_inf flip [] h).
+Proof.
+  cbv zeta. split; [repeat constructor|]. split; [intros b [<-|[]]; reflexivity|]. split; vm_compute; reflexivity.
+Qed.
+
 Example C03_witness :
   OpUtils.small_number (Atom [5]) = Some 5 /\ fits_in_small_atom [5] = Some 5 /\
   OpUtils.small_number (Atom [0; 5]) = None /\ OpUtils.small_number (Atom [0; 128]) = Some 128 /\
@@ -83,4 +125,7 @@ Print Assumptions C03_read_number.
 Print Assumptions C03_read_atom_eq.
 Print Assumptions C03_history.
 Print Assumptions C03_gc.
+Print Assumptions C03_bls_cache.
+Print Assumptions C03_bls_cache_fragile.
+Print Assumptions C03_bls_cache_witness.
 Print Assumptions C03_witness.
